@@ -390,6 +390,72 @@ def job_cubic_fitbc_allN(seed, bc):
     return obs
 
 
+def job_akima_allN(seed):
+    """AkimaSpline::Interpolate for every number of knots: both loops closed by per-iteration contracts.  Loop 1: the slope at an inner knot i is getSlope of the four
+    secants around it.  Loop 2: for ARBITRARY knot slopes t the cubic of interval i is the Hermite interpolant (values and slopes at both ends): hence S interpolates the
+    data and S' is continuous with S'(x_i) = t_i at every knot, whatever the slopes are."""
+    import z3
+    rvc.reset()
+    rel = 'tools/src/libtools/akimaspline.cc'
+    fns = rvc.functions(rvc.ast(rel, 'AkimaSpline'))
+    fn = fns['Interpolate'][0]
+    F = 'AkimaSpline::Interpolate'
+    stmts = rvc.body_of(fn)['inner']
+    loops = [k for k, st in enumerate(stmts) if st['kind'] == 'ForStmt']
+    if len(loops) != 2:
+        raise core.Undecided('AkimaSpline::Interpolate: two loops expected, found %d' % len(loops))
+    isym, nsym = sp.Symbol('i', integer=True, nonnegative=True), sp.Symbol('N', integer=True, positive=True)
+    x, y = FunVec('x', isym, nsym), FunVec('y', isym, nsym)
+    mf = fn_meta(fns, 'AkimaSpline', ['Interpolate'], rel)
+    obs = []
+    P = rvc.Paths(); P.start()
+    rvc.CTX.base = [z3.Int('N') >= 4, z3.Int('i') >= 0, z3.Int('i') <= z3.Int('N') - 2]
+    slopes = []
+    tvec = FunVec('t', isym, nsym)
+    ps = [FunVec('p%d' % k, isym, nsym) for k in range(4)]
+    this = {'r_': x, 'p0': ps[0], 'p1': ps[1], 'p2': ps[2], 'p3': ps[3], 't': tvec, 'boundaries_': 0}
+    cb = {'enum': lambda nm: ENUM[nm], 'decide': P.decide, 'getSlope': lambda o, a, b, c, d: (slopes.append([D.lift(v).v for v in (a, b, c, d)]), D(sp.Symbol('slope%d' % len(slopes), real=True)))[1]}
+    ex = Exec({'x': x, 'y': y, 'N': SInt(nsym)}, cb, fns, this)
+    def ob(oid, clause, ok, detail=''):
+        o = Ob(oid, F, clause, 'RVC', 'symbolic execution (loop closed by a per-iteration contract, vectors of symbolic length)', core.PROVED if ok else core.REFUTED, 0, detail, witness=None if ok else {'detail': detail[:400]})
+        o['functions'] = mf; obs.append(o)
+    # loop 1: inner slopes
+    l1 = stmts[loops[0]]
+    ex.env[l1['inner'][0]['inner'][0]['name']] = SInt(isym)
+    for nm in ('m1', 'm2', 'm3', 'm4'):
+        ex.env[nm] = D(rvc.fresh('uninit'))
+    tvec.store.clear()
+    ex.stmt(l1['inner'][4])
+    sec = lambda a: (y.get(SInt(isym + a + 1)).v - y.get(SInt(isym + a)).v) / (x.get(SInt(isym + a + 1)).v - x.get(SInt(isym + a)).v)
+    ok = len(slopes) == 1 and list(tvec.store) == ['i'] and rvc.nf_zero(tvec.store['i'].v - sp.Symbol('slope1', real=True))
+    ob('C12.akima.allN/slope.write', 'iteration i of the first loop writes t(i) only, with the value getSlope returns', ok, '%s %s' % (list(tvec.store), len(slopes)))
+    if ok:
+        for k, a in enumerate((-2, -1, 0, 1)):
+            o = rvc.identity('C12.akima.allN/slope.m%d' % (k + 1), F, 'argument %d of getSlope is the secant of the data over [x(i%+d), x(i%+d)]' % (k + 1, a, a + 1), slopes[0][k], sec(a), seed)
+            o['functions'] = mf; obs.append(o)
+    # loop 2: coefficients from arbitrary slopes
+    tvec.store.clear()
+    for pv in ps:
+        pv.store.clear()
+    l2 = stmts[loops[1]]
+    ex.env[l2['inner'][0]['inner'][0]['name']] = SInt(isym)
+    ex.stmt(l2['inner'][4])
+    okw = all(list(pv.store) == ['i'] for pv in ps) and not tvec.store
+    ob('C12.akima.allN/coeff.write', 'iteration i of the second loop writes the four coefficients of interval i and nothing else', okw, str([list(pv.store) for pv in ps]))
+    if okw:
+        r = sp.Symbol('r', real=True)
+        def S(fname, at):
+            exs = Exec({}, {'enum': lambda nm: ENUM[nm], 'getInterval': lambda o_, rv: SInt(isym)}, fns, this)
+            d = exs.call_fn(exs.pick_method(fname, 1), [D(r)], this)
+            return sp.sympify(D.lift(d).v).subs(r, at)
+        xi, xj = x.get(SInt(isym)).v, x.get(SInt(isym + 1)).v
+        for nm, lhs, rhs in (('value.left', S('Calculate', xi), y.get(SInt(isym)).v), ('value.right', S('Calculate', xj), y.get(SInt(isym + 1)).v),
+                             ('slope.left', S('CalculateDerivative', xi), tvec.get(SInt(isym)).v), ('slope.right', S('CalculateDerivative', xj), tvec.get(SInt(isym + 1)).v)):
+            o = rvc.identity('C12.akima.allN/hermite.%s' % nm, F, 'on interval i the spline has the data value / the knot slope at the %s end, for arbitrary knot slopes: S interpolates and S\' is continuous at every knot of every grid' % nm.split('.')[1], lhs, rhs, seed)
+            o['functions'] = mf; obs.append(o)
+    return obs
+
+
 def replay_periodic(obs):
     bad = [o for o in obs if o['status'] == core.REFUTED]
     if not bad:
@@ -854,7 +920,7 @@ def jobs_rvc(tier, seed):
 
 
 def run(tier, seed, only=None):
-    jobs = jobs_rvc(tier, seed) + [(job_cubic_interpolate_allN, (seed, 0)), (job_cubic_interpolate_allN, (seed, 1)), (job_cubic_fitbc_allN, (seed, 0)), (job_cubic_fitbc_allN, (seed, 1))] + [(job_getinterval, ('unbounded',)), (job_getinterval, ('twin',))] + [(job_getinterval_real, (k, seed)) for k in ((3, 4) if tier == 'quick' else (3, 4, 5, 6))] + [(job_grid, ('spline', seed)), (job_grid, ('table', seed))]
+    jobs = jobs_rvc(tier, seed) + [(job_cubic_interpolate_allN, (seed, 0)), (job_cubic_interpolate_allN, (seed, 1)), (job_cubic_fitbc_allN, (seed, 0)), (job_cubic_fitbc_allN, (seed, 1)), (job_akima_allN, (seed,))] + [(job_getinterval, ('unbounded',)), (job_getinterval, ('twin',))] + [(job_getinterval_real, (k, seed)) for k in ((3, 4) if tier == 'quick' else (3, 4, 5, 6))] + [(job_grid, ('spline', seed)), (job_grid, ('table', seed))]
     if only:
         jobs = [j for j in jobs if re.search(only, j[0].__name__ + str(j[1]))]
     obs = core.pmap(jobs)
